@@ -51,9 +51,15 @@ Section Sw.
           end
       end.
 
-  (* a count above the buffer's length cannot be the count of an array inside it: outside the model *)
+  (* elements that swap does not touch: swap of a uint8_t / int8_t is empty, the loop only advances *)
+  Definition sw_untouched (t : ty) : bool :=
+    match t with TByte => true | TScalar k => pc_builtin_size k =? 1 | _ => false end.
+
+  (* for the other element types a count above the buffer's length cannot be the count of an array inside
+     it (every element is at least one byte that swap reads): outside the model *)
   Definition sw_n (dyn : bool) (t : ty) (n : Z) (data : bytes) (pos : Z) : option (bytes * Z) :=
-    if (n <? 0) || (len data <? n) then None else sw_loop dyn t (Z.to_nat n) data pos.
+    if sw_untouched t then Some (data, pos + n)
+    else if (n <? 0) || (len data <? n) then None else sw_loop dyn t (Z.to_nat n) data pos.
 
   (* gen_member at address a (an optional's value at [aopt]): buffer, returned pointer, and the value
      `payload-><member>` holds afterwards if it is a builtin integer (what a later `payload->n` reads) *)
